@@ -16,6 +16,7 @@
 package meta
 
 import (
+	"bytes"
 	"regexp/syntax"
 )
 
@@ -41,6 +42,10 @@ type AnchoredLiteralInfo struct {
 
 	// WildcardMin is 0 for .* or 1 for .+
 	WildcardMin int
+
+	// WildcardMatchesNewline is true when the wildcard is (?s:.); otherwise the bytes it covers
+	// must not contain '\n', as for any other '.'.
+	WildcardMatchesNewline bool
 
 	// MinLength is the minimum input length for a possible match.
 	// Calculated as: len(Prefix) + WildcardMin + CharClassMin + len(Suffix)
@@ -102,6 +107,7 @@ func DetectAnchoredLiteral(re *syntax.Regexp) *AnchoredLiteralInfo {
 	var prefix []byte
 	var wildcardIdx = -1
 	var wildcardMin int
+	var wildcardNL bool
 	var charClassTable *[256]bool
 	var charClassMin int
 
@@ -117,6 +123,7 @@ func DetectAnchoredLiteral(re *syntax.Regexp) *AnchoredLiteralInfo {
 			}
 			wildcardIdx = i
 			wildcardMin = getWildcardMin(sub)
+			wildcardNL = sub.Sub[0].Op == syntax.OpAnyChar
 		} else if wildcardIdx == -1 {
 			// Before wildcard - must be literal (prefix)
 			lit := extractLiteral(sub)
@@ -139,6 +146,10 @@ func DetectAnchoredLiteral(re *syntax.Regexp) *AnchoredLiteralInfo {
 			// After wildcard - must be charclass+ or nothing
 			if isCharClassPlus(sub) && i == suffixIdx-1 {
 				// Charclass bridge right before suffix
+				// Members above U+007F are multi-byte in UTF-8 and cannot be tested byte by byte.
+				if cc := sub.Sub[0].Rune; len(cc) > 0 && cc[len(cc)-1] > 0x7F {
+					return nil
+				}
 				charClassTable = buildCharClassTable(sub.Sub[0])
 				charClassMin = 1 // Plus requires at least 1
 			} else {
@@ -163,6 +174,8 @@ func DetectAnchoredLiteral(re *syntax.Regexp) *AnchoredLiteralInfo {
 		CharClassMin:   charClassMin,
 		WildcardMin:    wildcardMin,
 		MinLength:      minLen,
+
+		WildcardMatchesNewline: wildcardNL,
 	}
 }
 
@@ -213,10 +226,15 @@ func extractLiteral(re *syntax.Regexp) []byte {
 	if re.Op != syntax.OpLiteral {
 		return nil
 	}
-	// Convert runes to bytes (assuming ASCII for now)
+	// A case-insensitive literal stands for several byte strings; it cannot be compared byte-wise.
+	if re.Flags&syntax.FoldCase != 0 {
+		return nil
+	}
+	// Convert runes to bytes
 	result := make([]byte, 0, len(re.Rune))
 	for _, r := range re.Rune {
-		if r > 255 {
+		// Every rune above U+007F is multi-byte in UTF-8 (U+00E9 is C3 A9, not the byte E9).
+		if r > 0x7F {
 			// Non-ASCII literal - still valid but needs UTF-8 encoding
 			// For simplicity, encode as UTF-8
 			buf := make([]byte, 4)
@@ -323,7 +341,7 @@ func MatchAnchoredLiteral(input []byte, info *AnchoredLiteralInfo) bool {
 	if info.CharClassTable == nil {
 		// Still need to verify wildcard minimum
 		middleLen := suffixStart - len(info.Prefix)
-		return middleLen >= info.WildcardMin
+		return middleLen >= info.WildcardMin && info.wildcardOK(input[len(info.Prefix):suffixStart])
 	}
 
 	// O(k) charclass bridge check
@@ -348,5 +366,14 @@ func MatchAnchoredLiteral(input []byte, info *AnchoredLiteralInfo) bool {
 		}
 	}
 
-	return found >= info.CharClassMin
+	// The wildcard covers what lies between the prefix and the class run. The run found above is
+	// the longest one, so this is the shortest possible wildcard span: if it contains a newline,
+	// every other split does too.
+	return found >= info.CharClassMin && info.wildcardOK(input[len(info.Prefix):charClassEnd-found])
+}
+
+// wildcardOK reports whether the bytes covered by the wildcard can be matched by it:
+// '.' does not match '\n' unless the pattern says (?s).
+func (info *AnchoredLiteralInfo) wildcardOK(span []byte) bool {
+	return info.WildcardMatchesNewline || bytes.IndexByte(span, '\n') < 0
 }
